@@ -2,6 +2,12 @@
 
 use crate::refmodel::{Arg, Combo, Tr};
 
+/// Name of the i-th named field.  Deliberately NOT in alphabetical order, so that anything
+/// that orders fields by name instead of by declaration position is observable.
+pub fn fname(i: usize) -> String {
+    format!("{}{}", ["q", "c", "x", "a", "m", "b"][i % 6], i)
+}
+
 #[derive(Clone, Debug, Default)]
 pub struct FieldDef {
     pub attrs: Vec<String>,
@@ -76,7 +82,7 @@ impl FieldsDef {
                     .enumerate()
                     .map(|(i, mut f)| {
                         if f.name.is_none() {
-                            f.name = Some(format!("f{i}"));
+                            f.name = Some(fname(i));
                         }
                         f
                     })
@@ -361,5 +367,116 @@ pub fn single_field_item(container: Container, ctx: Ctx, cfg_ty: &str, attrs: &[
         Container::NamedStruct => ItemDef::strukt("X", generics, FieldsDef::of(true, fs)),
         Container::EnumTupleVariant => ItemDef::enm("X", generics, vec![VariantDef::new("A", FieldsDef::Unit), VariantDef::new("B", FieldsDef::of(false, fs)), VariantDef::new("C", FieldsDef::of(true, vec![FieldDef::tuple("u8")]))]),
         Container::EnumNamedVariant => ItemDef::enm("X", generics, vec![VariantDef::new("A", FieldsDef::Unit), VariantDef::new("B", FieldsDef::of(true, fs)), VariantDef::new("C", FieldsDef::of(false, vec![FieldDef::tuple("u8")]))]),
+    }
+}
+
+// ---------------------------------------------------------------------------------------
+// Shape grammar Sh(n_v, n_f) (DESIGN.md section 3)
+// ---------------------------------------------------------------------------------------
+
+#[derive(Clone, Copy, PartialEq, Eq, Debug, Hash, PartialOrd, Ord)]
+pub enum SKind {
+    Unit,
+    Tuple,
+    Named,
+}
+
+#[derive(Clone, Debug, PartialEq, Eq, Hash)]
+pub struct VShape {
+    pub kind: SKind,
+    pub n: usize,
+}
+
+#[derive(Clone, Debug, PartialEq, Eq, Hash)]
+pub struct Shape {
+    pub is_enum: bool,
+    /// a struct has exactly one entry
+    pub variants: Vec<VShape>,
+}
+
+pub const SHAPE_VNAMES: [&str; 6] = ["A", "B", "C", "D", "E", "F"];
+
+/// menu of variant / struct-body shapes with up to `max_n` fields:
+/// unit, tuple(0..=max_n), named(0..=max_n)
+pub fn vshape_menu(max_n: usize) -> Vec<VShape> {
+    let mut v = vec![VShape { kind: SKind::Unit, n: 0 }];
+    for n in 0..=max_n {
+        v.push(VShape { kind: SKind::Tuple, n });
+    }
+    for n in 0..=max_n {
+        v.push(VShape { kind: SKind::Named, n });
+    }
+    v
+}
+
+impl Shape {
+    pub fn vname(&self, vi: usize) -> &'static str {
+        SHAPE_VNAMES[vi]
+    }
+    pub fn path(&self, vi: usize) -> String {
+        if self.is_enum {
+            format!("X::{}", SHAPE_VNAMES[vi])
+        } else {
+            "X".into()
+        }
+    }
+    pub fn fields_def(&self, vi: usize, ty: &dyn Fn(usize, usize) -> String, attrs: &dyn Fn(usize, usize) -> Vec<String>) -> FieldsDef {
+        let v = &self.variants[vi];
+        let fs: Vec<FieldDef> = (0..v.n).map(|fi| FieldDef::tuple(&ty(vi, fi)).attrs(&attrs(vi, fi))).collect();
+        match v.kind {
+            SKind::Unit => FieldsDef::Unit,
+            SKind::Tuple => FieldsDef::of(false, fs),
+            SKind::Named => FieldsDef::of(true, fs),
+        }
+    }
+    /// the item `X` with per-field types and attributes
+    pub fn item(&self, generics: &str, ty: &dyn Fn(usize, usize) -> String, attrs: &dyn Fn(usize, usize) -> Vec<String>) -> ItemDef {
+        if self.is_enum {
+            ItemDef::enm("X", generics, (0..self.variants.len()).map(|vi| VariantDef::new(SHAPE_VNAMES[vi], self.fields_def(vi, ty, attrs))).collect())
+        } else {
+            ItemDef::strukt("X", generics, self.fields_def(0, ty, attrs))
+        }
+    }
+    /// constructor / pattern for variant `vi` with the given per-field expressions
+    pub fn ctor(&self, vi: usize, args: &[String]) -> String {
+        let none = |_: usize, _: usize| String::new();
+        let noattrs = |_: usize, _: usize| Vec::new();
+        self.fields_def(vi, &none, &noattrs).ctor(&self.path(vi), args)
+    }
+    pub fn member(&self, vi: usize, fi: usize) -> String {
+        match self.variants[vi].kind {
+            SKind::Named => fname(fi),
+            _ => fi.to_string(),
+        }
+    }
+    pub fn describe(&self) -> String {
+        let parts: Vec<String> = self.variants.iter().map(|v| match v.kind {
+            SKind::Unit => "unit".to_string(),
+            SKind::Tuple => format!("tuple{}", v.n),
+            SKind::Named => format!("named{}", v.n),
+        }).collect();
+        format!("{}[{}]", if self.is_enum { "enum" } else { "struct" }, parts.join(","))
+    }
+    pub fn total_fields(&self) -> usize {
+        self.variants.iter().map(|v| v.n).sum()
+    }
+}
+
+/// choose a shape: struct bodies from the menu, enums with 0..=max_v variants each from the menu
+pub fn pick_shape(ch: &mut crate::explore::Ch, max_v: usize, max_n: usize, allow_empty_enum: bool) -> Shape {
+    let menu = vshape_menu(max_n);
+    // slot 0: struct or enum with k variants
+    let lo = if allow_empty_enum { 0 } else { 1 };
+    let k = ch.pick(1 + (max_v + 1 - lo));
+    if k == 0 {
+        let v = ch.of(&menu).clone();
+        Shape { is_enum: false, variants: vec![v] }
+    } else {
+        let nv = k - 1 + lo;
+        let mut vs = Vec::new();
+        for _ in 0..nv {
+            vs.push(ch.of(&menu).clone());
+        }
+        Shape { is_enum: true, variants: vs }
     }
 }
